@@ -121,6 +121,7 @@ def gen_groups(rng):
     if use_extends:
         cfg["BaseMarket"] = {"class": "Market", "tickSize": 0.5, "marketPrice": 100.0, "from": 7, "to": 9}
     inherit_count = {}
+    has_count_key = {}     # does the group's effective setting (own keys + ancestors) carry numMarkets / numAgents?
 
     def derived(kind, name, parent, listed=None):
         """a group that extends an earlier, already listed group and may rely on its inherited count / prefix."""
@@ -140,7 +141,7 @@ def gen_groups(rng):
             n = rng.choice([1, 2, 4])
             g["from"], g["to"] = a, a + n - 1
             cls = "range"
-            if cfg[parent].get(key) is not None or inherit_count.get(parent, 1) != 1 and "from" not in cfg[parent]:
+            if has_count_key[parent]:
                 # an inherited count next to an own range is the documented invalid combination
                 return g, n, cls, "count-and-range"
         return g, n, cls, None
@@ -155,6 +156,7 @@ def gen_groups(rng):
             g, n, cls, invalid = group("markets", name, base)
         cfg[name] = g
         inherit_count[name] = n if cls in ("count", "inherited-count") else 1
+        has_count_key[name] = "numMarkets" in g or (g.get("extends") in has_count_key and has_count_key[g["extends"]])
         cfg["simulation"]["markets"].append(name)
         expect["markets"].append((name, n, cls))
         if invalid and expect["invalid"] is None:
@@ -172,6 +174,7 @@ def gen_groups(rng):
             g, n, cls, invalid = group("agents", name, base)
         cfg[name] = g
         inherit_count[name] = n if cls in ("count", "inherited-count") else 1
+        has_count_key[name] = "numAgents" in g or (g.get("extends") in has_count_key and has_count_key[g["extends"]])
         cfg["simulation"]["agents"].append(name)
         expect["agents"].append((name, n, cls, listed))
         if invalid and expect["invalid"] is None:
